@@ -77,31 +77,71 @@ func (context *Context) IsDisjunctionOfBuilders(def ast.Type) bool {
 }
 
 func (context *Context) IsArrayOfKinds(def ast.Type, kinds ...ast.Kind) bool {
-	def = context.ResolveRefs(def)
-	if !def.IsArray() {
-		return false
-	}
+	// aliases can be recursive through arrays: `A: [...A]`
+	seen := map[ast.RefType]struct{}{}
 
-	valueType := context.ResolveRefs(def.AsArray().ValueType)
-	if valueType.IsArray() {
-		return context.IsArrayOfKinds(valueType, kinds...)
-	}
+	for {
+		if def.IsRef() {
+			if _, cyclic := seen[def.AsRef()]; cyclic {
+				return false
+			}
+			seen[def.AsRef()] = struct{}{}
+		}
 
-	return valueType.IsAnyOf(kinds...)
+		def = context.ResolveRefs(def)
+		if !def.IsArray() {
+			return false
+		}
+
+		valueType := def.AsArray().ValueType
+		if valueType.IsRef() {
+			if _, cyclic := seen[valueType.AsRef()]; cyclic {
+				return false
+			}
+			seen[valueType.AsRef()] = struct{}{}
+		}
+
+		valueType = context.ResolveRefs(valueType)
+		if !valueType.IsArray() {
+			return valueType.IsAnyOf(kinds...)
+		}
+
+		def = valueType
+	}
 }
 
 func (context *Context) IsMapOfKinds(def ast.Type, kinds ...ast.Kind) bool {
-	def = context.ResolveRefs(def)
-	if !def.IsMap() {
-		return false
-	}
+	// aliases can be recursive through maps: `A: {[string]: A}`
+	seen := map[ast.RefType]struct{}{}
 
-	valueType := context.ResolveRefs(def.AsMap().ValueType)
-	if valueType.IsMap() {
-		return context.IsMapOfKinds(valueType, kinds...)
-	}
+	for {
+		if def.IsRef() {
+			if _, cyclic := seen[def.AsRef()]; cyclic {
+				return false
+			}
+			seen[def.AsRef()] = struct{}{}
+		}
 
-	return valueType.IsAnyOf(kinds...)
+		def = context.ResolveRefs(def)
+		if !def.IsMap() {
+			return false
+		}
+
+		valueType := def.AsMap().ValueType
+		if valueType.IsRef() {
+			if _, cyclic := seen[valueType.AsRef()]; cyclic {
+				return false
+			}
+			seen[valueType.AsRef()] = struct{}{}
+		}
+
+		valueType = context.ResolveRefs(valueType)
+		if !valueType.IsMap() {
+			return valueType.IsAnyOf(kinds...)
+		}
+
+		def = valueType
+	}
 }
 
 func (context *Context) ResolveToComposableSlot(def ast.Type) (ast.Type, bool) {
